@@ -326,7 +326,7 @@ def run_world(spec, argv, child_hook=None, warnings=None, probe=True,
     if probe:
         def _probe():
             return (sys.stdout is CUR_OUT, sys.stderr is CUR_ERR,
-                    CUR_OUT.pos())
+                    CUR_OUT.pos(), CUR_ERR.pos())
         worldrt.PROBE = _probe
     else:
         worldrt.PROBE = None
